@@ -51,7 +51,9 @@ Theorem C16_rectangle : forall g st fi eo a d e f x y w h, ~ (d * h == 0)%Q ->
 Proof. exact re_is_rect_axis. Qed.
 
 Open Scope Z_scope.
-(* non-vacuity: two subpaths (a triangle and a rectangle via re) under a scaling matrix, painted with b* *)
+(* non-vacuity: two subpaths (an open triangle and a rectangle via re) under a scaling matrix, painted with b*:
+   the closing h goes to the last subpath only, and -- known finding C16-doubleclose -- turns the already closed
+   rectangle into a six-point curve *)
 Example C16_nonvacuous :
   let prog := [IOpnd (ONum 2); IOpnd (ONum 0); IOpnd (ONum 0); IOpnd (ONum 3); IOpnd (ONum 5); IOpnd (ONum 7); IOp Kcm;
                IOpnd (ONum (1#2)); IOp Kw; IOpnd (ONum 1); IOpnd (ONum 0); IOpnd (ONum 0); IOp KRG;
@@ -60,7 +62,7 @@ Example C16_nonvacuous :
                IOpnd (ONum 20); IOpnd (ONum 20); IOpnd (ONum 5); IOpnd (ONum 4); IOp Kre; IOp Kbstar] in
   map (fun sh => (match skind_ sh with KLine => 0 | KRect => 1 | KCurve => 2 end, length (spts sh), sstroke sh, sevenodd sh))
       (flat_map shapes_of_event (run_page 2 ident (Res [] [] []) prog))
-  = [(2, 4%nat, true, true); (1, 4%nat, true, true)].
+  = [(2, 3%nat, true, true); (2, 6%nat, true, true)].
 Proof. vm_compute. reflexivity. Qed.
 
 Print Assumptions C16_no_residue.
